@@ -39,20 +39,23 @@ def oviewList : List ONode → List XElem
 end
 
 mutual
-/-- `inD`: an ancestor has a namespace (a default namespace is in scope).  Names are XML names; an element without namespace has
-    no ancestor with one; attributes are `attrOkB` and pairwise different by expanded name; the value prefix data of the node and
+/-- `inD`: an ancestor has a namespace (a default namespace is in scope).  Names are XML names; if `strict`, an element without
+    namespace has no ancestor with one; attributes are `attrOkB` and pairwise different by expanded name; the value prefix data of the node and
     its attributes use XML names other than `xmlns` and give one uri per prefix; no forbidden control characters -/
-def onodeOkB (inD : Bool) : ONode → Bool
+def onodeOkB (strict inD : Bool) : ONode → Bool
   | .mk name _ ns value valPfx attrs kids =>
-    nameOkB name && (ns.isSome || !inD) && optAll noCtlB ns && noCtlB value && pfxDataOkB valPfx && attrs.all attrOkB &&
-      noDupAttrs (attrs.map viewAttr) && consistentB (reservedOf valPfx attrs) && olistOkB (inD || ns.isSome) kids
-def olistOkB (inD : Bool) : List ONode → Bool
+    nameOkB name && (ns.isSome || !inD || !strict) && optAll noCtlB ns && noCtlB value && pfxDataOkB valPfx && attrs.all attrOkB &&
+      noDupAttrs (attrs.map viewAttr) && consistentB (reservedOf valPfx attrs) && olistOkB strict (inD || ns.isSome) kids
+def olistOkB (strict inD : Bool) : List ONode → Bool
   | [] => true
-  | n :: r => onodeOkB inD n && olistOkB inD r
+  | n :: r => onodeOkB strict inD n && olistOkB strict inD r
 end
 
 /-- the hypothesis of `opaque_document_faithful` -/
-def opaqOk (forest : List ONode) : Bool := olistOkB false forest
+def opaqOk (forest : List ONode) : Bool := olistOkB true false forest
+
+/-- … without the restriction on elements in no namespace (hypothesis of `opaque_document_faithful_any_namespace`) -/
+def opaqOkAnyNs (forest : List ONode) : Bool := olistOkB false false forest
 
 mutual
 /-- the names of the conjuncts of `onodeOkB` that fail somewhere in the tree (for the distribution the check prints) -/
